@@ -53,12 +53,16 @@ def units(tier):
 
 # ------------------------------------------------------------------------------------------------
 # scratch directory
+_ROOTS = []
+
+
 class _Scratch:
     """Per-unit temporary directory; cwd is moved into it so that relative spellings land there."""
 
     def __enter__(self):
         self.old = os.getcwd()
         self.root = os.path.realpath(tempfile.mkdtemp(prefix="c18-"))
+        _ROOTS.append(self.root)
         os.chdir(self.root)
         return self
 
@@ -781,12 +785,12 @@ def _mismatch_pairs(ctx, family):
     bases = []  # (regime, spec, kw)
     for j, act in enumerate(acts(3)):
         bases.append(("generic", dict(nS=4, act=act, obs=_OBS_FINITE[j % 3]), dict(generic)))
-    for u in (2, 3, 4):
+    for u in (1, 2, 3, 4):
         for d in (1, 2, 3):
             for j, act in enumerate(acts(u)):
                 kw = {a: u for a in size_args}
                 kw.update({a: d for a in depth_args})
-                bases.append((f"uniform{u}", dict(nS=u, act=act, obs=_OBS_FINITE[(j + d) % 3 if j else 0]), kw))
+                bases.append((f"uniform{u}", dict(nS=max(u, 2), act=act, obs=_OBS_FINITE[(j + d) % 3 if j else 0]), kw))
     n_rand = ctx.n(4, 40)
     for j in range(n_rand):
         u = int(rng.integers(2, 6))
@@ -900,7 +904,9 @@ def _mismatch_unit(ctx, family):
             det = {**desc, "saved_leaf_shapes": [s[1] if s[0] == "a" else s[1] for s in sA],
                    "skeleton_leaf_shapes": [s[1] if s[0] == "a" else s[1] for s in sB],
                    "got": f"an object of type {type(got).__name__}", "want": "an exception"}
-            if len(sB) < len(sA) and sA[:len(sB)] == sB:
+            if len(sB) < len(sA):
+                # the skeleton was filled from a prefix of the file and the rest of the file was ignored
+                det["skeleton_is_exact_prefix_of_file"] = sA[:len(sB)] == sB
                 ctx.violation("deserialize-ignores-trailing-leaves", det)
             else:
                 ctx.violation(f"mismatched-load-returns-object-{family}", det)
@@ -1042,8 +1048,6 @@ def u_paths(ctx):
                 obs[f"save {sname} load {lname}"] = _err(e)[:120]
         ctx.notes["cross_spelling_observations"] = obs
         ctx.notes["files_left_before_cleanup"] = len(T.files())
-        root = T.root
-    ctx.notes["scratch_removed"] = not os.path.exists(root)
     ctx.require("roundtrips_loaded", 20)
     ctx.require("roundtrips_distinguishable_from_fresh_init", 20)
     ctx.require("dotted_name_roundtrips", 4)
@@ -1054,6 +1058,10 @@ def u_paths(ctx):
 
 
 def run_unit(name, ctx):
+    cwd = os.getcwd()
     if name.startswith("mismatch_"):
-        return _mismatch_unit(ctx, name.split("_", 1)[1])
-    {"ac": u_ac, "ac_spaces": u_ac_spaces, "q": u_q, "sac": u_sac, "paths": u_paths}[name](ctx)
+        _mismatch_unit(ctx, name.split("_", 1)[1])
+    else:
+        {"ac": u_ac, "ac_spaces": u_ac_spaces, "q": u_q, "sac": u_sac, "paths": u_paths}[name](ctx)
+    ctx.notes["scratch_dirs_removed"] = all(not os.path.exists(r) for r in _ROOTS)
+    ctx.notes["cwd_restored"] = os.getcwd() == cwd
